@@ -4,7 +4,7 @@
 # check of its property runs from the copy, the patch is reverted.  Summary lines -> /verif/work/seeds.log
 # (development tool only - no registered command depends on it)
 set -u
-V=/tmp/vseed; R=/tmp/repo_seed
+SFX=${SEED_SFX:-}; V=/tmp/vseed$SFX; R=/tmp/repo_seed$SFX
 rm -rf $R; git clone -q /repo $R || exit 2
 mkdir -p $V
 rsync -a --delete --exclude work --exclude harness/target --exclude .git --exclude evidence --exclude replays /verif/ $V/
@@ -13,7 +13,7 @@ sed -i "s#path = \"/repo\"#path = \"$R\"#" $V/harness/Cargo.toml
 export VERIF_REPO=$R
 for n in "$@"; do
   prop=${n%%_*}
-  if ! git -C $R apply /verif/seeded/$n/patch.diff; then echo "$n -> $prop: patch does not apply" | tee -a /verif/work/seeds.log; continue; fi
+  if ! git -C $R apply ${SEED_DIR:-/verif/seeded}/$n/patch.diff; then echo "$n -> $prop: patch does not apply" | tee -a /verif/work/seeds.log; continue; fi
   out=$(cd $V && ./check $prop 2>&1)
   git -C $R checkout -q -- .
   nv=$(echo "$out" | grep -c '^VIOLATION')
